@@ -967,3 +967,19 @@ Proof.
     specialize (IH s1 HI1 Hr). destruct (bus_run fixed s1 r) as [s2 tr]. destruct IH as [A B].
     split; [exact A|]. intros x. specialize (L x). specialize (B x). cbn [tr_in tr_out]. cnt_simp. lia.
 Qed.
+
+(* ================================================================ the poll descriptors, both directions *)
+Theorem bus_poll_mirror_law fixed s c a :
+  BInv s ->
+  (poll_r (bus_poll s) = Some true <-> completions (snd (bus_step fixed s (PRecv c a true))) = [(a, E_OK)]) /\
+  (poll_r (bus_poll s) = Some false <-> completions (snd (bus_step fixed s (PRecv c a true))) = [(a, E_AGAIN)]) /\
+  poll_w (bus_poll s) = Some true /\
+  (fixed = true -> forall m, completions (snd (bus_step fixed s (PSend c a true m))) = [(a, E_OK)]).
+Proof.
+  intros (_ & _ & _ & _ & _ & _ & I7). cbn [bus_poll poll_r poll_w]. rewrite I7. cbn [bus_step].
+  split; [|split; [|split]].
+  - destruct (bs_rq s); cbn; split; intros H; try discriminate; reflexivity.
+  - destruct (bs_rq s); cbn; split; intros H; try discriminate; reflexivity.
+  - reflexivity.
+  - intros -> m. cbn [negb andb snd]. rewrite completions_app, completions_offer. reflexivity.
+Qed.
